@@ -30,7 +30,9 @@ def failing(out):
 
 
 def tests(wt):
-    env = dict(os.environ, PYTHONPATH=wt, PYTHONHASHSEED='0')
+    home = wt + '_home'          # the suite writes ~/test.h5 etc.: a private HOME keeps concurrent suites from colliding
+    os.makedirs(home, exist_ok=True)
+    env = dict(os.environ, PYTHONPATH=wt, PYTHONHASHSEED='0', HOME=home, OMP_NUM_THREADS='2', OPENBLAS_NUM_THREADS='2')
     rc, out = sh(PYT, cwd=wt, env=env)
     tail = out.strip().splitlines()[-1] if out.strip() else ''
     return failing(out), tail
@@ -48,6 +50,7 @@ def worktree(name):
 def drop(wt):
     sh(['git', '-C', '/repo', 'worktree', 'remove', '--force', wt])
     shutil.rmtree(wt, ignore_errors=True)
+    shutil.rmtree(wt + '_home', ignore_errors=True)
 
 
 def main():
